@@ -321,23 +321,54 @@ def build_clf(cfg, classes):
 
 
 # ---------------------------------------------------------------- calls ----
+# how arguments are handed over: "ndarray" | "int32_idx" (queried indices as
+# an int32 array instead of the int64 array query returned) | "list" (nested
+# Python lists). "list" is NOT generated: although the docstrings say
+# array-like, the budget managers reject non-ndarray utilities with an
+# explicit TypeError and some update methods use candidates.shape - input
+# validation that none of the listed properties is about (a survey with
+# lists only produced these rejections).
+_ARG_STYLE = "ndarray"
+ARG_STYLES = ["ndarray", "ndarray", "int32_idx"]
+
+
+def set_arg_style(style):
+    global _ARG_STYLE
+    _ARG_STYLE = style or "ndarray"
+
+
+def _arr(a):
+    if a is None or _ARG_STYLE != "list":
+        return a
+    return np.asarray(a).tolist()
+
+
+def _idx(q):
+    if _ARG_STYLE == "list":
+        return [int(i) for i in np.asarray(q).ravel()]
+    if _ARG_STYLE == "int32_idx":
+        return np.asarray(q).astype(np.int32)
+    return q
+
+
 def call_query(kind, name, obj, chunk, clf=None, X=None, y=None,
                sample_weight=None, fit_clf=False, return_utilities=False,
                utility_weight=None):
     """chunk: ndarray (n, d) for strategies, ndarray (n,) of utilities for
     managers.  Returns (queried_indices, utilities_or_None)."""
     if kind == "manager":
-        return obj.query_by_utility(chunk), None
+        return obj.query_by_utility(_arr(chunk)), None
     if STRATEGIES[name]["clf"]:
-        kw = dict(candidates=chunk, clf=clf, X=X, y=y, fit_clf=fit_clf,
-                  return_utilities=return_utilities)
+        kw = dict(candidates=_arr(chunk), clf=clf, X=_arr(X), y=_arr(y),
+                  fit_clf=fit_clf, return_utilities=return_utilities)
         if sample_weight is not None:
-            kw["sample_weight"] = sample_weight
+            kw["sample_weight"] = _arr(sample_weight)
         if utility_weight is not None:
-            kw["utility_weight"] = utility_weight
+            kw["utility_weight"] = _arr(utility_weight)
         r = obj.query(**kw)
     else:
-        r = obj.query(candidates=chunk, return_utilities=return_utilities)
+        r = obj.query(candidates=_arr(chunk),
+                      return_utilities=return_utilities)
     if return_utilities:
         q, u = r
         return q, u
@@ -345,16 +376,18 @@ def call_query(kind, name, obj, chunk, clf=None, X=None, y=None,
 
 
 def call_update(kind, name, obj, chunk, q, utilities=None):
+    q = _idx(q)
     if kind == "manager":
-        cand = np.asarray(chunk, dtype=float).reshape(-1, 1)
+        cand = _arr(np.asarray(chunk, dtype=float).reshape(-1, 1))
         if MANAGERS[name]["needs_util"]:
-            return obj.update(cand, q, np.asarray(chunk, dtype=float))
+            return obj.update(cand, q, _arr(np.asarray(chunk, dtype=float)))
         return obj.update(cand, q)
     sig = inspect.signature(obj.update).parameters
     if "budget_manager_param_dict" in sig:
-        return obj.update(candidates=chunk, queried_indices=q,
-                          budget_manager_param_dict={"utilities": utilities})
-    return obj.update(candidates=chunk, queried_indices=q)
+        return obj.update(candidates=_arr(chunk), queried_indices=q,
+                          budget_manager_param_dict={
+                              "utilities": _arr(utilities)})
+    return obj.update(candidates=_arr(chunk), queried_indices=q)
 
 
 # ------------------------------------------------- Hypothesis strategies ----
